@@ -82,8 +82,133 @@ class DictSub(dict):
         raise RuntimeError("no repr dict")
 
 
+import collections as _collections
+import dataclasses as _dataclasses
+import enum as _enum
+
+
+class Colour(_enum.Enum):
+    RED = 1
+    GREEN = "g"
+
+
+class Level(_enum.IntEnum):
+    LOW = 1
+    HIGH = 2
+
+
+Point = _collections.namedtuple("Point", "x y")
+
+
+@_dataclasses.dataclass
+class Record(object):
+    name: str
+    payload: object = None
+
+
+class IntSub(int):
+    def __repr__(self):
+        raise RuntimeError("no repr int")
+
+    __str__ = __repr__
+
+
+class BadIter(object):
+    def __iter__(self):
+        raise RuntimeError("no iter")
+
+    def __len__(self):
+        raise RuntimeError("no len")
+
+    def __bool__(self):
+        raise RuntimeError("no bool")
+
+
+class BadGetattr(object):
+    def __getattr__(self, name):
+        raise RuntimeError("no attribute %s" % name)
+
+
+class NumpyLike(object):
+    """Looks like what eliot.json's default handles for numpy (has dtype / tolist / item) without being it."""
+    dtype = "int64"
+    shape = (2,)
+    size = 2
+
+    def tolist(self):
+        raise RuntimeError("no tolist")
+
+    def item(self):
+        raise RuntimeError("no item")
+
+
+def _more_hostile(rng, r):
+    import datetime
+    import decimal
+    import fractions
+    if r == 22:
+        return Colour.RED
+    if r == 23:
+        return Level.HIGH
+    if r == 24:
+        return Point(1, BadStrObj())
+    if r == 25:
+        return Record("r", payload=Plain())
+    if r == 26:
+        return StrSub("str subclass \ud800")
+    if r == 27:
+        return IntSub(7)
+    if r == 28:
+        return BadIter()
+    if r == 29:
+        return BadGetattr()
+    if r == 30:
+        return NumpyLike()
+    if r == 31:
+        return (x for x in [1, 2, 3])
+    if r == 32:
+        return bytearray(b"\xff\x00")
+    if r == 33:
+        return memoryview(b"abc")
+    if r == 34:
+        return decimal.Decimal("1.5")
+    if r == 35:
+        return fractions.Fraction(1, 3)
+    if r == 36:
+        return datetime.datetime(2020, 1, 1, tzinfo=datetime.timezone(datetime.timedelta(hours=5, minutes=30)))
+    if r == 37:
+        return range(10**12)
+    if r == 38:
+        return frozenset([1, Plain])
+    if r == 39:
+        return {"k": 1}.keys()
+    if r == 40:
+        return ValueError
+    if r == 41:
+        e = ValueError("an exception instance as field value")
+        e.__cause__ = KeyError("cause")
+        return e
+    if r == 42:
+        return ExceptionGroup("group", [ValueError("a"), KeyError("b")])
+    if r == 43:
+        return {Colour.RED: 1, Level.LOW: 2}
+    if r == 44:
+        return {"set": {1, "x", None}}
+    if r == 45:
+        return datetime.datetime(1, 1, 1)
+    if r == 46:
+        return datetime.datetime(9999, 12, 31, 23, 59, 59, 999999)
+    if r == 47:
+        return float("-inf")
+    if r == 48:
+        return complex(float("nan"), 1)
+    return type("Anon", (), {"__slots__": ()})()
+
+
 def hostile_value(rng):
-    r = rng.randrange(22)
+    r = rng.randrange(50)
+    if r >= 22:
+        return _more_hostile(rng, r)
     if r == 0:
         return BadStrObj()
     if r == 1:
